@@ -90,6 +90,10 @@ static FOREIGN_PANICS: Mutex<Vec<PanicInfo>> = Mutex::new(Vec::new());
 pub fn install_panic_hook() {
     let default = std::panic::take_hook();
     std::panic::set_hook(Box::new(move |info| {
+        // A crash the simulation injects on purpose.
+        if info.payload().downcast_ref::<sim::InjectedCrash>().is_some() {
+            return;
+        }
         let loc = info
             .location()
             .map(|l| format!("{}:{}", l.file(), l.line()))
